@@ -23,7 +23,6 @@ impl Arena {
 }
 
 pub fn inside(p: *const u8, n: usize, input: &[u8]) -> bool {
-    if n == 0 { return true }
     let a = input.as_ptr() as usize;
     (p as usize) >= a && (p as usize) + n <= a + input.len()
 }
